@@ -17,7 +17,7 @@ import (
 func init() { register(&Spec{ID: "C20", Targets: []load.Target{load.Linux}, Run: runC20}) }
 
 func runC20(c *core.Ctx) {
-	runFixtures(c, "drop")
+	runFixtures(c, "drop", "walkloop")
 	c.Explain("Whether the conformance suite fails on each of ~60 deviant file systems is a statement about executions (mutation adequacy) and cannot be decided without running the suite, which this family may not do. Decided are properties of the suite's own code whose violation makes it blind: (R20.1) every exported scenario func Test*(testing.TB, FSOptions) of package fstest is registered in the FS or File runner; (R20.2) every exported internal/assert helper and every FSOptions.assert* method returning bool reports through tb.Error/Errorf/Fatal* (or a helper that does) on every path that returns false, and has at least one such path; (R20.3) mode comparisons keep all bits when Constraints.FileModeMask is its zero value ('disables checks on the specified bits, defaults to checking all'); (R20.4) the final-tree comparison is an equality, not a subset test; (R20.5) the skip data is collected after the parallel subtests have run; (R20.6) package fstest writes no package-level variable outside init (the verdict depends only on the FS under test); (R20.7) no subtest closure that goes parallel captures a loop variable that is one cell shared by all iterations under the module's language version (< go1.22) — such subtests all run against the last table row and the other rows are never checked; (R20.8) the helpers comparing an error with an expected *PathError/*LinkError type-assert the error value itself and do not search its chain with errors.As; (R20.9) the harness that runs tasks concurrently starts all goroutines before it waits (no WaitGroup.Wait inside the starting loop); (R20.10, contradiction rule) in every subtest closure, if the error of an operation of the library reaches an assertion on one path it does so on every path from the operation to the end of the subtest (skips excepted). The property itself (acceptance of the references, rejection of deviants) is (R20.11) no by-name listing is sorted before it is asserted on; (R20.12) errors.Is is applied in one direction, observed against expected; (R20.13) a subset assertion between two observed listings has its converse or a distinctness assertion. (R20.14) every return of the tree comparison follows the walk; (R20.15) every TestFile<Op> scenario reaches <Op> on a file handle; (R20.16) the tree walk records every listed entry. NOT claimed.")
 	c.Assume("testing.TB.Error/Errorf/Fatal/Fatalf/FailNow/Fail mark the test failed")
 	c.RuleDoc("R20.1", "every scenario is registered")
@@ -1082,47 +1082,15 @@ func r20WalkRecordsEveryEntry(c *core.Ctx, p *load.Program) {
 		if fn.Parent() != nil || !strings.HasPrefix(fn.Name(), "walk") || fn.Blocks == nil {
 			continue
 		}
-		// the observed map: a map-typed parameter that the function updates
-		var upd *ssa.MapUpdate
-		ssax.Instrs(fn, func(ins ssa.Instruction) {
-			if mu, ok := ins.(*ssa.MapUpdate); ok {
-				if _, isParam := mu.Map.(*ssa.Parameter); isParam {
-					upd = mu
-				}
-			}
-		})
+		upd, inLoop, bad := walkLoopSkips(p, fn)
 		if upd == nil {
 			continue
 		}
 		n++
 		key := fname(fn) + "|every-iteration-records-the-entry"
-		// innermost loop header around the store
-		var header *ssa.BasicBlock
-		for _, b := range fn.Blocks {
-			isHeader := false
-			for _, pr := range b.Preds {
-				if b.Dominates(pr) {
-					isHeader = true
-				}
-			}
-			if isHeader && b.Dominates(upd.Block()) && (header == nil || header.Dominates(b)) {
-				header = b
-			}
-		}
-		if header == nil {
+		if !inLoop {
 			c.Bad("R20.16", key, p.Pos(upd.Pos()), fmt.Sprintf("%s stores into the observed map outside any loop: the rule cannot locate the walk over the listing", fname(fn)))
 			continue
-		}
-		bad := ""
-		for _, pr := range header.Preds {
-			if header.Dominates(pr) && !upd.Block().Dominates(pr) {
-				if len(pr.Instrs) > 0 {
-					bad = p.Pos(lastPos(pr))
-				}
-				if bad == "" {
-					bad = p.Pos(fn.Pos())
-				}
-			}
 		}
 		c.Check(bad == "", "R20.16", key, p.Pos(upd.Pos()), "every back edge of the listing loop follows the store into the observed map",
 			fmt.Sprintf("%s: an iteration of the loop over the listing can end (near %s) without recording the entry: a name the directory lists but that cannot be examined is skipped silently, so a Remove that leaves the name behind in its parent's listing is accepted — this walk is the only place that looks at a listing after a removal", fname(fn), bad))
@@ -1130,6 +1098,45 @@ func r20WalkRecordsEveryEntry(c *core.Ctx, p *load.Program) {
 	if n == 0 {
 		c.Hard("anchor: the tree walk of fstest (a walk* function that fills a map parameter)")
 	}
+}
+
+// walkLoopSkips: the store of fn into a map parameter, whether it lies in a loop, and the position of a back edge of
+// the innermost such loop that the store does not dominate ("" when every iteration passes through the store).
+func walkLoopSkips(p *load.Program, fn *ssa.Function) (upd *ssa.MapUpdate, inLoop bool, bad string) {
+	ssax.Instrs(fn, func(ins ssa.Instruction) {
+		if mu, ok := ins.(*ssa.MapUpdate); ok {
+			if _, isParam := mu.Map.(*ssa.Parameter); isParam {
+				upd = mu
+			}
+		}
+	})
+	if upd == nil {
+		return nil, false, ""
+	}
+	var header *ssa.BasicBlock
+	for _, b := range fn.Blocks {
+		isHeader := false
+		for _, pr := range b.Preds {
+			if b.Dominates(pr) {
+				isHeader = true
+			}
+		}
+		if isHeader && b.Dominates(upd.Block()) && (header == nil || header.Dominates(b)) {
+			header = b
+		}
+	}
+	if header == nil {
+		return upd, false, ""
+	}
+	for _, pr := range header.Preds {
+		if header.Dominates(pr) && !upd.Block().Dominates(pr) {
+			bad = p.Pos(lastPos(pr))
+			if bad == "" {
+				bad = p.Pos(fn.Pos())
+			}
+		}
+	}
+	return upd, true, bad
 }
 
 func lastPos(b *ssa.BasicBlock) token.Pos {
